@@ -11,6 +11,7 @@ import (
 	"strconv"
 	"strings"
 	"sync"
+	"time"
 
 	jsonata "github.com/blues/jsonata-go"
 
@@ -437,6 +438,11 @@ func c05E3(env *explore.Env, res *explore.Result) {
 	init0 := &state{}
 	frontier = append(frontier, init0)
 	for len(frontier) > 0 {
+		if time.Now().After(env.Deadline) {
+			res.Exhaustive = false
+			res.CapHit = "e3 search stopped at the time budget"
+			break
+		}
 		if len(res.Violations) >= 25 {
 			// enough counterexamples on record: do not spend the budget enumerating the rest of a broken state space
 			res.Exhaustive = false
